@@ -1,23 +1,1138 @@
 package main
 
+// Model of package reflect. gosym values carry go/types types, so reflect.Type is
+// modelled by types.Type (identity = types.Identical) and reflect.Value by a typed
+// reference to a heap location or an rvalue, with the read-only (unexported field)
+// and addressable flags that the real package tracks.
+
 import (
+	"fmt"
+	"go/token"
 	"go/types"
+	"strings"
+
+	"golang.org/x/tools/go/ssa"
 )
 
-// rval models reflect.Value: a typed reference to a location (addressable) or an rvalue.
 type rval struct {
-	t     types.Type // nil: invalid (zero Value)
-	ref   *value     // location when addressable / obtained via pointer
-	v     value      // rvalue when ref == nil
-	ro    bool       // obtained through an unexported field
-	addr  bool       // addressable (CanAddr)
+	t    types.Type // nil: the zero (invalid) Value
+	ref  *value     // location, when the value was reached through a pointer / is addressable
+	v    value      // rvalue when ref == nil
+	ro   bool       // obtained through an unexported struct field
+	addr bool       // CanAddr
 }
 
-// rtype models reflect.Type (the dynamic value behind the reflect.Type interface).
 type rtype struct{ t types.Type }
 
 func (rtype) isRtypeMarker() {}
 
-func addReflect(e *Engine, m map[string]intrinsic) {}
+type boundFn struct {
+	fn   value
+	recv value
+	sig  *types.Signature
+}
 
-func (e *Engine) nativeMethod(t types.Type, meth *types.Func) *nativeFunc { return nil }
+type rmapIter struct {
+	m   *Map
+	kt  types.Type
+	et  types.Type
+	it  *mapIter
+	cur *mapEntry
+	ro  bool
+}
+
+const (
+	kInvalid = iota
+	kBool
+	kInt
+	kInt8
+	kInt16
+	kInt32
+	kInt64
+	kUint
+	kUint8
+	kUint16
+	kUint32
+	kUint64
+	kUintptr
+	kFloat32
+	kFloat64
+	kComplex64
+	kComplex128
+	kArray
+	kChan
+	kFunc
+	kInterface
+	kMap
+	kPointer
+	kSlice
+	kString
+	kStruct
+	kUnsafePointer
+)
+
+var kindNames = []string{"invalid", "bool", "int", "int8", "int16", "int32", "int64", "uint", "uint8", "uint16", "uint32", "uint64", "uintptr", "float32", "float64", "complex64", "complex128", "array", "chan", "func", "interface", "map", "ptr", "slice", "string", "struct", "unsafe.Pointer"}
+
+func typeKind(t types.Type) int {
+	if t == nil {
+		return kInvalid
+	}
+	switch u := t.Underlying().(type) {
+	case *types.Basic:
+		switch u.Kind() {
+		case types.Bool, types.UntypedBool:
+			return kBool
+		case types.Int, types.UntypedInt:
+			return kInt
+		case types.Int8:
+			return kInt8
+		case types.Int16:
+			return kInt16
+		case types.Int32, types.UntypedRune:
+			return kInt32
+		case types.Int64:
+			return kInt64
+		case types.Uint:
+			return kUint
+		case types.Uint8:
+			return kUint8
+		case types.Uint16:
+			return kUint16
+		case types.Uint32:
+			return kUint32
+		case types.Uint64:
+			return kUint64
+		case types.Uintptr:
+			return kUintptr
+		case types.Float32:
+			return kFloat32
+		case types.Float64, types.UntypedFloat:
+			return kFloat64
+		case types.Complex64:
+			return kComplex64
+		case types.Complex128:
+			return kComplex128
+		case types.String, types.UntypedString:
+			return kString
+		case types.UnsafePointer:
+			return kUnsafePointer
+		}
+	case *types.Array:
+		return kArray
+	case *types.Chan:
+		return kChan
+	case *types.Signature:
+		return kFunc
+	case *types.Interface:
+		return kInterface
+	case *types.Map:
+		return kMap
+	case *types.Pointer:
+		return kPointer
+	case *types.Slice:
+		return kSlice
+	case *types.Struct:
+		return kStruct
+	}
+	return kInvalid
+}
+
+func isIfaceType(t types.Type) bool {
+	_, ok := t.Underlying().(*types.Interface)
+	return ok
+}
+
+func rpanic(format string, a ...interface{}) targetPanic {
+	return targetPanic{msg: "reflect: " + fmt.Sprintf(format, a...)}
+}
+
+func (r *rval) get() value {
+	if r.ref != nil {
+		return copyVal(*r.ref)
+	}
+	return r.v
+}
+
+func (r *rval) kind() int { return typeKind(r.t) }
+
+func (r *rval) mustBe(what string, kinds ...int) {
+	k := r.kind()
+	for _, x := range kinds {
+		if k == x {
+			return
+		}
+	}
+	if k == kInvalid {
+		panic(rpanic("call of reflect.Value.%s on zero Value", what))
+	}
+	panic(rpanic("call of reflect.Value.%s on %s Value", what, kindNames[k]))
+}
+
+func (e *Engine) rtypeIface(t types.Type) value {
+	if t == nil {
+		return iface{}
+	}
+	return iface{t: e.rtypeT(), v: rtype{t}}
+}
+
+func (e *Engine) rtypeT() types.Type {
+	e.mu.Lock()
+	defer e.mu.Unlock()
+	if e.rtypeType == nil {
+		pkg := e.pkgs["reflect"]
+		if pkg == nil {
+			panic(unsupported{"package reflect not loaded"})
+		}
+		e.rtypeType = types.NewPointer(pkg.Type("rtype").Type())
+	}
+	return e.rtypeType
+}
+
+func typeOfArg(v value) types.Type {
+	it, ok := v.(iface)
+	if !ok {
+		panic(unsupported{fmt.Sprintf("reflect.Type argument %T", v)})
+	}
+	if it.t == nil {
+		panic(runtimePanic("invalid memory address or nil pointer dereference (nil reflect.Type)"))
+	}
+	rt, ok := it.v.(rtype)
+	if !ok {
+		panic(unsupported{fmt.Sprintf("reflect.Type with dynamic value %T", it.v)})
+	}
+	return rt.t
+}
+
+// wrapFor converts the content of x for storage into a location of type dst.
+func wrapFor(dst types.Type, x *rval) value {
+	if isIfaceType(dst) && !isIfaceType(x.t) {
+		return iface{t: x.t, v: x.get()}
+	}
+	return x.get()
+}
+
+func typeString(t types.Type) string {
+	s := types.TypeString(t, pkgNameQualifier)
+	s = strings.ReplaceAll(s, "interface{}", "interface {}")
+	// the alias "any" prints as "interface {}" in package reflect
+	var sb strings.Builder
+	isId := func(c byte) bool { return c == '_' || c >= '0' && c <= '9' || c >= 'a' && c <= 'z' || c >= 'A' && c <= 'Z' || c >= 0x80 }
+	for i := 0; i < len(s); {
+		if strings.HasPrefix(s[i:], "any") && (i == 0 || !isId(s[i-1]) && s[i-1] != '.') && (i+3 == len(s) || !isId(s[i+3])) {
+			sb.WriteString("interface {}")
+			i += 3
+			continue
+		}
+		sb.WriteByte(s[i])
+		i++
+	}
+	return sb.String()
+}
+
+func (e *Engine) structFieldValue(st *types.Struct, i int, index []int) value {
+	f := st.Field(i)
+	pkgPath := ""
+	if !f.Exported() && f.Pkg() != nil {
+		pkgPath = f.Pkg().Path()
+	}
+	idx := make([]value, len(index))
+	for j, x := range index {
+		idx[j] = BV(64, uint64(x))
+	}
+	return structure{f.Name(), pkgPath, e.rtypeIface(f.Type()), st.Tag(i), BV(64, 0), idx, Bool(f.Embedded())}
+}
+
+func (p *Path) rvalIsNil(r *rval, what string) bool {
+	r.mustBe(what, kChan, kFunc, kInterface, kMap, kPointer, kSlice, kUnsafePointer)
+	v := r.get()
+	if bf, ok := v.(*boundFn); ok {
+		return bf == nil
+	}
+	return isNilValue(v)
+}
+
+// isZeroTerm returns the term for "v is the zero value of its type".
+func (p *Path) isZeroTerm(v value) *Term {
+	switch x := v.(type) {
+	case *Term:
+		switch x.sort.K {
+		case SBool:
+			return Not(x)
+		case SBV:
+			return Eq(x, BV(x.sort.W, 0))
+		case SFP:
+			// IsZero is true for +0 only
+			return Eq(x, fpConst(x.sort.W, 0))
+		}
+	case string:
+		return Bool(x == "")
+	case *SymStr:
+		return Bool(len(x.b) == 0)
+	case structure:
+		r := termTrue
+		for _, e := range x {
+			r = And(r, p.isZeroTerm(e))
+		}
+		return r
+	case array:
+		r := termTrue
+		for _, e := range x {
+			r = And(r, p.isZeroTerm(e))
+		}
+		return r
+	case *rval:
+		return Bool(x.t == nil)
+	}
+	return Bool(isNilValue(v))
+}
+
+func (p *Path) fieldByName(t types.Type, name string) (index []int, ft types.Type, ok bool) {
+	obj, idx, _ := types.LookupFieldOrMethod(t, true, nil, name)
+	if obj == nil {
+		// unexported names need the package: search directly
+		if st, isSt := t.Underlying().(*types.Struct); isSt {
+			for i := 0; i < st.NumFields(); i++ {
+				if st.Field(i).Name() == name {
+					return []int{i}, st.Field(i).Type(), true
+				}
+			}
+		}
+		return nil, nil, false
+	}
+	f, isVar := obj.(*types.Var)
+	if !isVar || !f.IsField() {
+		return nil, nil, false
+	}
+	return idx, f.Type(), true
+}
+
+func (p *Path) rField(r *rval, i int) *rval {
+	r.mustBe("Field", kStruct)
+	st := r.t.Underlying().(*types.Struct)
+	if i < 0 || i >= st.NumFields() {
+		panic(rpanic("Field index out of range"))
+	}
+	f := st.Field(i)
+	ro := r.ro || !f.Exported()
+	if r.ref != nil {
+		s := (*r.ref).(structure)
+		return &rval{t: f.Type(), ref: &s[i], ro: ro, addr: r.addr}
+	}
+	return &rval{t: f.Type(), v: r.v.(structure)[i], ro: ro}
+}
+
+func (p *Path) rElem(r *rval) *rval {
+	switch r.kind() {
+	case kPointer:
+		ptr := r.get().(*value)
+		if ptr == nil {
+			return &rval{}
+		}
+		return &rval{t: deref(r.t), ref: ptr, ro: r.ro, addr: true}
+	case kInterface:
+		it := r.get().(iface)
+		if it.t == nil {
+			return &rval{}
+		}
+		return &rval{t: it.t, v: it.v, ro: r.ro}
+	}
+	r.mustBe("Elem", kInterface, kPointer)
+	return nil
+}
+
+func (p *Path) rLen(r *rval) int {
+	switch x := r.get().(type) {
+	case []value:
+		return len(x)
+	case array:
+		return len(x)
+	case *Map:
+		return x.Len()
+	case string, *SymStr:
+		return strLen(x)
+	case *chanVal:
+		return 0
+	}
+	r.mustBe("Len", kArray, kChan, kMap, kSlice, kString)
+	return 0
+}
+
+func (p *Path) methodByName(r *rval, name string) *rval {
+	if r.t == nil {
+		panic(rpanic("call of reflect.Value.MethodByName on zero Value"))
+	}
+	if !token.IsExported(name) {
+		return &rval{}
+	}
+	if r.kind() == kInterface {
+		it := r.get().(iface)
+		if it.t == nil {
+			return &rval{}
+		}
+		r = &rval{t: it.t, v: it.v, ro: r.ro}
+	}
+	ms := p.eng.prog.MethodSets.MethodSet(r.t)
+	for i := 0; i < ms.Len(); i++ {
+		sel := ms.At(i)
+		if sel.Obj().Name() != name {
+			continue
+		}
+		fn := p.eng.prog.MethodValue(sel)
+		if fn == nil {
+			return &rval{}
+		}
+		sig := sel.Type().(*types.Signature)
+		return &rval{t: sig, v: &boundFn{fn: fn, recv: r.get(), sig: sig}, ro: r.ro}
+	}
+	return &rval{}
+}
+
+func (p *Path) rCall(fr *frame, r *rval, args []value) value {
+	r.mustBe("Call", kFunc)
+	var fn value
+	var full []value
+	var sig *types.Signature
+	switch f := r.get().(type) {
+	case *boundFn:
+		fn = f.fn
+		full = append(full, f.recv)
+		sig = f.sig
+	default:
+		fn = f
+		sig = r.t.Underlying().(*types.Signature)
+	}
+	for i, a := range args {
+		av := a.(*rval)
+		if av.t == nil {
+			panic(rpanic("Call using zero Value argument"))
+		}
+		var pt types.Type
+		if sig.Variadic() && i >= sig.Params().Len()-1 {
+			pt = sig.Params().At(sig.Params().Len() - 1).Type().(*types.Slice).Elem()
+			panic(unsupported{"reflect.Value.Call of variadic function"})
+		} else {
+			pt = sig.Params().At(i).Type()
+		}
+		full = append(full, wrapFor(pt, av))
+	}
+	res := p.call(fr, 0, fn, full)
+	var out []value
+	switch sig.Results().Len() {
+	case 0:
+	case 1:
+		out = append(out, &rval{t: sig.Results().At(0).Type(), v: res})
+	default:
+		tup := res.(tuple)
+		for i := range tup {
+			out = append(out, &rval{t: sig.Results().At(i).Type(), v: tup[i]})
+		}
+	}
+	if out == nil {
+		out = []value{}
+	}
+	return out
+}
+
+func (p *Path) rSet(r *rval, x *rval, what string) {
+	if !r.addr || r.ref == nil {
+		panic(rpanic("reflect.Value.%s using unaddressable value", what))
+	}
+	if r.ro {
+		panic(rpanic("reflect.Value.%s using value obtained using unexported field", what))
+	}
+	if x.t == nil {
+		panic(rpanic("call of reflect.Value.%s with zero Value", what))
+	}
+	if x.ro {
+		panic(rpanic("reflect.Value.%s using value obtained using unexported field", what))
+	}
+	if !types.AssignableTo(x.t, r.t) {
+		panic(rpanic("reflect.Set: value of type %s is not assignable to type %s", typeString(x.t), typeString(r.t)))
+	}
+	store(r.ref, wrapFor(r.t, x))
+}
+
+func (p *Path) rInterface(r *rval) value {
+	if r.t == nil {
+		panic(rpanic("call of reflect.Value.Interface on zero Value"))
+	}
+	if r.ro {
+		panic(rpanic("reflect.Value.Interface: cannot return value obtained from unexported field or method"))
+	}
+	v := r.get()
+	if isIfaceType(r.t) {
+		return v
+	}
+	return iface{t: r.t, v: v}
+}
+
+func newRmapIter(r *rval) *rmapIter {
+	mt := r.t.Underlying().(*types.Map)
+	m, _ := r.get().(*Map)
+	return &rmapIter{m: m, kt: mt.Key(), et: mt.Elem(), it: m.iter(), ro: r.ro}
+}
+
+func rv(args []value, i int) *rval {
+	r, ok := args[i].(*rval)
+	if !ok {
+		panic(unsupported{fmt.Sprintf("reflect.Value argument is %T", args[i])})
+	}
+	return r
+}
+
+func addReflect(e *Engine, m map[string]intrinsic) {
+	V := func(name string, f func(p *Path, fr *frame, r *rval, args []value) value) {
+		m["(reflect.Value)."+name] = func(p *Path, fr *frame, args []value) value {
+			return f(p, fr, rv(args, 0), args[1:])
+		}
+	}
+	m["reflect.ValueOf"] = func(p *Path, fr *frame, args []value) value {
+		it := args[0].(iface)
+		if it.t == nil {
+			return &rval{}
+		}
+		return &rval{t: it.t, v: it.v}
+	}
+	m["reflect.TypeOf"] = func(p *Path, fr *frame, args []value) value {
+		it := args[0].(iface)
+		return e.rtypeIface(it.t)
+	}
+	m["reflect.New"] = func(p *Path, fr *frame, args []value) value {
+		t := typeOfArg(args[0])
+		cell := zero(t)
+		return &rval{t: types.NewPointer(t), v: &cell}
+	}
+	m["reflect.Zero"] = func(p *Path, fr *frame, args []value) value {
+		t := typeOfArg(args[0])
+		return &rval{t: t, v: zero(t)}
+	}
+	m["reflect.Indirect"] = func(p *Path, fr *frame, args []value) value {
+		r := rv(args, 0)
+		if r.kind() != kPointer {
+			return r
+		}
+		return p.rElem(r)
+	}
+	m["reflect.MakeSlice"] = func(p *Path, fr *frame, args []value) value {
+		t := typeOfArg(args[0])
+		st, ok := t.Underlying().(*types.Slice)
+		if !ok {
+			panic(rpanic("MakeSlice of non-slice type"))
+		}
+		l, c := mustInt(args[1], "MakeSlice len"), mustInt(args[2], "MakeSlice cap")
+		if l < 0 || c < l {
+			panic(rpanic("MakeSlice: bad len/cap"))
+		}
+		s := make([]value, c)
+		for i := range s {
+			s[i] = zero(st.Elem())
+		}
+		return &rval{t: t, v: s[:l]}
+	}
+	mkMap := func(p *Path, fr *frame, args []value) value {
+		t := typeOfArg(args[0])
+		mt, ok := t.Underlying().(*types.Map)
+		if !ok {
+			panic(rpanic("MakeMap of non-map type"))
+		}
+		return &rval{t: t, v: newMap(mt.Key())}
+	}
+	m["reflect.MakeMap"] = mkMap
+	m["reflect.MakeMapWithSize"] = mkMap
+	m["reflect.PtrTo"] = func(p *Path, fr *frame, args []value) value {
+		return e.rtypeIface(types.NewPointer(typeOfArg(args[0])))
+	}
+	m["reflect.PointerTo"] = m["reflect.PtrTo"]
+	m["reflect.SliceOf"] = func(p *Path, fr *frame, args []value) value {
+		return e.rtypeIface(types.NewSlice(typeOfArg(args[0])))
+	}
+	m["reflect.MapOf"] = func(p *Path, fr *frame, args []value) value {
+		return e.rtypeIface(types.NewMap(typeOfArg(args[0]), typeOfArg(args[1])))
+	}
+	m["reflect.Append"] = func(p *Path, fr *frame, args []value) value {
+		s := rv(args, 0)
+		s.mustBe("Append", kSlice)
+		et := s.t.Underlying().(*types.Slice).Elem()
+		sl, _ := s.get().([]value)
+		for _, x := range args[1].([]value) {
+			xv := x.(*rval)
+			if xv.t == nil {
+				panic(rpanic("reflect.Append: zero Value"))
+			}
+			if !types.AssignableTo(xv.t, et) {
+				panic(rpanic("reflect.Set: value of type %s is not assignable to type %s", typeString(xv.t), typeString(et)))
+			}
+			sl = append(sl, copyVal(wrapFor(et, xv)))
+		}
+		return &rval{t: s.t, v: sl}
+	}
+	m["reflect.AppendSlice"] = func(p *Path, fr *frame, args []value) value {
+		s, t := rv(args, 0), rv(args, 1)
+		sl, _ := s.get().([]value)
+		tl, _ := t.get().([]value)
+		for _, x := range tl {
+			sl = append(sl, copyVal(x))
+		}
+		return &rval{t: s.t, v: sl}
+	}
+	m["reflect.Copy"] = func(p *Path, fr *frame, args []value) value {
+		d, s := rv(args, 0), rv(args, 1)
+		dl, _ := d.get().([]value)
+		sl, _ := s.get().([]value)
+		n := copy(dl, sl)
+		return BV(64, uint64(n))
+	}
+	m["reflect.DeepEqual"] = func(p *Path, fr *frame, args []value) value {
+		return p.deepEqualTerm(args[0], args[1])
+	}
+	m["(reflect.Kind).String"] = func(p *Path, fr *frame, args []value) value {
+		k := mustInt(args[0], "Kind")
+		if k >= 0 && int(k) < len(kindNames) {
+			return kindNames[k]
+		}
+		return fmt.Sprintf("kind%d", k)
+	}
+	m["(reflect.ChanDir).String"] = func(p *Path, fr *frame, args []value) value { return "chan" }
+
+	// ---- Value methods
+	V("Kind", func(p *Path, fr *frame, r *rval, a []value) value { return BV(64, uint64(r.kind())) })
+	V("IsValid", func(p *Path, fr *frame, r *rval, a []value) value { return Bool(r.t != nil) })
+	V("Type", func(p *Path, fr *frame, r *rval, a []value) value {
+		if r.t == nil {
+			panic(rpanic("call of reflect.Value.Type on zero Value"))
+		}
+		return e.rtypeIface(r.t)
+	})
+	V("Elem", func(p *Path, fr *frame, r *rval, a []value) value { return p.rElem(r) })
+	V("IsNil", func(p *Path, fr *frame, r *rval, a []value) value { return Bool(p.rvalIsNil(r, "IsNil")) })
+	V("IsZero", func(p *Path, fr *frame, r *rval, a []value) value {
+		if r.t == nil {
+			panic(rpanic("call of reflect.Value.IsZero on zero Value"))
+		}
+		return p.isZeroTerm(r.get())
+	})
+	V("CanSet", func(p *Path, fr *frame, r *rval, a []value) value { return Bool(r.addr && !r.ro) })
+	V("CanAddr", func(p *Path, fr *frame, r *rval, a []value) value { return Bool(r.addr) })
+	V("CanInterface", func(p *Path, fr *frame, r *rval, a []value) value {
+		if r.t == nil {
+			panic(rpanic("call of reflect.Value.CanInterface on zero Value"))
+		}
+		return Bool(!r.ro)
+	})
+	V("Interface", func(p *Path, fr *frame, r *rval, a []value) value { return p.rInterface(r) })
+	V("Addr", func(p *Path, fr *frame, r *rval, a []value) value {
+		if !r.addr || r.ref == nil {
+			panic(rpanic("reflect.Value.Addr of unaddressable value"))
+		}
+		return &rval{t: types.NewPointer(r.t), v: r.ref, ro: r.ro}
+	})
+	V("NumField", func(p *Path, fr *frame, r *rval, a []value) value {
+		r.mustBe("NumField", kStruct)
+		return BV(64, uint64(r.t.Underlying().(*types.Struct).NumFields()))
+	})
+	V("Field", func(p *Path, fr *frame, r *rval, a []value) value {
+		return p.rField(r, int(mustInt(a[0], "Field index")))
+	})
+	V("FieldByName", func(p *Path, fr *frame, r *rval, a []value) value {
+		r.mustBe("FieldByName", kStruct)
+		idx, _, ok := p.fieldByName(r.t, cstr(a[0]))
+		if !ok {
+			return &rval{}
+		}
+		cur := r
+		for _, i := range idx {
+			if cur.kind() == kPointer {
+				cur = p.rElem(cur)
+			}
+			cur = p.rField(cur, i)
+		}
+		return cur
+	})
+	V("FieldByIndex", func(p *Path, fr *frame, r *rval, a []value) value {
+		cur := r
+		for _, iv := range a[0].([]value) {
+			if cur.kind() == kPointer {
+				cur = p.rElem(cur)
+			}
+			cur = p.rField(cur, int(mustInt(iv, "FieldByIndex")))
+		}
+		return cur
+	})
+	V("Len", func(p *Path, fr *frame, r *rval, a []value) value { return BV(64, uint64(p.rLen(r))) })
+	V("Cap", func(p *Path, fr *frame, r *rval, a []value) value {
+		switch x := r.get().(type) {
+		case []value:
+			return BV(64, uint64(cap(x)))
+		case array:
+			return BV(64, uint64(len(x)))
+		}
+		r.mustBe("Cap", kArray, kSlice)
+		return BV(64, 0)
+	})
+	V("Index", func(p *Path, fr *frame, r *rval, a []value) value {
+		idx := a[0].(*Term)
+		switch r.kind() {
+		case kSlice:
+			s, _ := r.get().([]value)
+			i := p.indexCheck(idx, true, len(s), "reflect slice index")
+			return &rval{t: r.t.Underlying().(*types.Slice).Elem(), ref: &s[i], ro: r.ro, addr: true}
+		case kArray:
+			et := r.t.Underlying().(*types.Array).Elem()
+			if r.ref != nil {
+				arr := (*r.ref).(array)
+				i := p.indexCheck(idx, true, len(arr), "reflect array index")
+				return &rval{t: et, ref: &arr[i], ro: r.ro, addr: r.addr}
+			}
+			arr := r.v.(array)
+			i := p.indexCheck(idx, true, len(arr), "reflect array index")
+			return &rval{t: et, v: arr[i], ro: r.ro}
+		case kString:
+			bs := strBytes(r.get())
+			i := p.indexCheck(idx, true, len(bs), "reflect string index")
+			return &rval{t: types.Typ[types.Uint8], v: bs[i], ro: r.ro}
+		}
+		r.mustBe("Index", kArray, kSlice, kString)
+		return nil
+	})
+	V("Slice", func(p *Path, fr *frame, r *rval, a []value) value {
+		i, j := int(mustInt(a[0], "Slice i")), int(mustInt(a[1], "Slice j"))
+		switch x := r.get().(type) {
+		case []value:
+			if i < 0 || j < i || j > cap(x) {
+				panic(rpanic("reflect.Value.Slice: slice index out of bounds"))
+			}
+			return &rval{t: r.t, v: x[i:j], ro: r.ro}
+		case string, *SymStr:
+			bs := strBytes(x)
+			if i < 0 || j < i || j > len(bs) {
+				panic(rpanic("reflect.Value.Slice: string slice index out of bounds"))
+			}
+			return &rval{t: r.t, v: mkStr(bs[i:j]), ro: r.ro}
+		}
+		panic(unsupported{"reflect.Value.Slice on this kind"})
+	})
+	V("Set", func(p *Path, fr *frame, r *rval, a []value) value { p.rSet(r, rv(a, 0), "Set"); return nil })
+	setScalar := func(name string, kinds []int, conv func(p *Path, r *rval, x value) value) {
+		V(name, func(p *Path, fr *frame, r *rval, a []value) value {
+			r.mustBe(name, kinds...)
+			if !r.addr || r.ref == nil {
+				panic(rpanic("reflect.Value.%s using unaddressable value", name))
+			}
+			if r.ro {
+				panic(rpanic("reflect.Value.%s using value obtained using unexported field", name))
+			}
+			store(r.ref, conv(p, r, a[0]))
+			return nil
+		})
+	}
+	intKinds := []int{kInt, kInt8, kInt16, kInt32, kInt64}
+	uintKinds := []int{kUint, kUint8, kUint16, kUint32, kUint64, kUintptr}
+	setScalar("SetInt", intKinds, func(p *Path, r *rval, x value) value {
+		s, _ := basicSort(r.t.Underlying().(*types.Basic))
+		return Extract(x.(*Term), s.W-1, 0)
+	})
+	setScalar("SetUint", uintKinds, func(p *Path, r *rval, x value) value {
+		s, _ := basicSort(r.t.Underlying().(*types.Basic))
+		return Extract(x.(*Term), s.W-1, 0)
+	})
+	setScalar("SetFloat", []int{kFloat32, kFloat64}, func(p *Path, r *rval, x value) value {
+		s, _ := basicSort(r.t.Underlying().(*types.Basic))
+		return FToF(x.(*Term), s.W)
+	})
+	setScalar("SetBool", []int{kBool}, func(p *Path, r *rval, x value) value { return x })
+	setScalar("SetString", []int{kString}, func(p *Path, r *rval, x value) value { return x })
+	setScalar("SetBytes", []int{kSlice}, func(p *Path, r *rval, x value) value { return x })
+	V("SetLen", func(p *Path, fr *frame, r *rval, a []value) value {
+		r.mustBe("SetLen", kSlice)
+		s := (*r.ref).([]value)
+		n := int(mustInt(a[0], "SetLen"))
+		if n < 0 || n > cap(s) {
+			panic(rpanic("reflect.Value.SetLen: slice length out of range"))
+		}
+		*r.ref = s[:n]
+		return nil
+	})
+	V("Int", func(p *Path, fr *frame, r *rval, a []value) value {
+		r.mustBe("Int", intKinds...)
+		return SExt(r.get().(*Term), 64)
+	})
+	V("Uint", func(p *Path, fr *frame, r *rval, a []value) value {
+		r.mustBe("Uint", uintKinds...)
+		return ZExt(r.get().(*Term), 64)
+	})
+	V("Float", func(p *Path, fr *frame, r *rval, a []value) value {
+		r.mustBe("Float", kFloat32, kFloat64)
+		return FToF(r.get().(*Term), 64)
+	})
+	V("Bool", func(p *Path, fr *frame, r *rval, a []value) value {
+		r.mustBe("Bool", kBool)
+		return r.get()
+	})
+	V("String", func(p *Path, fr *frame, r *rval, a []value) value {
+		if r.t == nil {
+			return "<invalid Value>"
+		}
+		if r.kind() == kString {
+			return r.get()
+		}
+		return "<" + typeString(r.t) + " Value>"
+	})
+	V("Bytes", func(p *Path, fr *frame, r *rval, a []value) value {
+		r.mustBe("Bytes", kSlice, kArray)
+		return r.get()
+	})
+	V("Pointer", func(p *Path, fr *frame, r *rval, a []value) value {
+		panic(unsupported{"reflect.Value.Pointer"})
+	})
+	V("UnsafePointer", func(p *Path, fr *frame, r *rval, a []value) value {
+		return uptr{r.get()}
+	})
+	V("Convert", func(p *Path, fr *frame, r *rval, a []value) value {
+		t := typeOfArg(a[0])
+		if r.t == nil {
+			panic(rpanic("call of reflect.Value.Convert on zero Value"))
+		}
+		if !types.ConvertibleTo(r.t, t) {
+			panic(rpanic("reflect.Value.Convert: value of type %s cannot be converted to type %s", typeString(r.t), typeString(t)))
+		}
+		if isIfaceType(t) {
+			if isIfaceType(r.t) {
+				return &rval{t: t, v: r.get(), ro: r.ro}
+			}
+			return &rval{t: t, v: iface{t: r.t, v: r.get()}, ro: r.ro}
+		}
+		if types.Identical(r.t.Underlying(), t.Underlying()) {
+			return &rval{t: t, v: r.get(), ro: r.ro}
+		}
+		return &rval{t: t, v: fr.conv(t, r.t, r.get()), ro: r.ro}
+	})
+	V("MapKeys", func(p *Path, fr *frame, r *rval, a []value) value {
+		r.mustBe("MapKeys", kMap)
+		mt := r.t.Underlying().(*types.Map)
+		mp, _ := r.get().(*Map)
+		out := []value{}
+		it := mp.iter()
+		for {
+			tup := it.next(p)
+			if tup[0].(*Term).c == 0 {
+				break
+			}
+			out = append(out, &rval{t: mt.Key(), v: tup[1], ro: r.ro})
+		}
+		return out
+	})
+	V("MapIndex", func(p *Path, fr *frame, r *rval, a []value) value {
+		r.mustBe("MapIndex", kMap)
+		mt := r.t.Underlying().(*types.Map)
+		mp, _ := r.get().(*Map)
+		k := rv(a, 0)
+		if k.t == nil {
+			panic(rpanic("call of reflect.Value.MapIndex with zero key"))
+		}
+		v, ok := mp.lookup(p, wrapFor(mt.Key(), k))
+		if !ok {
+			return &rval{}
+		}
+		return &rval{t: mt.Elem(), v: copyVal(v), ro: r.ro || k.ro}
+	})
+	V("SetMapIndex", func(p *Path, fr *frame, r *rval, a []value) value {
+		r.mustBe("SetMapIndex", kMap)
+		if r.ro {
+			panic(rpanic("reflect.Value.SetMapIndex using value obtained using unexported field"))
+		}
+		mt := r.t.Underlying().(*types.Map)
+		mp, _ := r.get().(*Map)
+		k, v := rv(a, 0), rv(a, 1)
+		if k.ro || v.ro {
+			panic(rpanic("reflect.Value.SetMapIndex using value obtained using unexported field"))
+		}
+		kv := wrapFor(mt.Key(), k)
+		if v.t == nil {
+			mp.delete(p, kv)
+			return nil
+		}
+		if mp == nil {
+			panic(targetPanic{msg: "assignment to entry in nil map"})
+		}
+		if !types.AssignableTo(v.t, mt.Elem()) {
+			panic(rpanic("reflect.Value.SetMapIndex: value of type %s is not assignable to type %s", typeString(v.t), typeString(mt.Elem())))
+		}
+		mp.insert(p, copyVal(kv), copyVal(wrapFor(mt.Elem(), v)))
+		return nil
+	})
+	V("MapRange", func(p *Path, fr *frame, r *rval, a []value) value {
+		r.mustBe("MapRange", kMap)
+		cell := value(newRmapIter(r))
+		return &cell
+	})
+	iterOf := func(v value) *rmapIter {
+		ptr := v.(*value)
+		return (*ptr).(*rmapIter)
+	}
+	m["(*reflect.MapIter).Next"] = func(p *Path, fr *frame, args []value) value {
+		it := iterOf(args[0])
+		for it.it.i < len(it.it.snap) {
+			en := it.it.snap[it.it.i]
+			it.it.i++
+			if !en.deleted {
+				it.cur = en
+				return termTrue
+			}
+		}
+		it.cur = nil
+		return termFalse
+	}
+	m["(*reflect.MapIter).Key"] = func(p *Path, fr *frame, args []value) value {
+		it := iterOf(args[0])
+		if it.cur == nil {
+			panic(rpanic("MapIter.Key called before Next"))
+		}
+		return &rval{t: it.kt, v: copyVal(it.cur.k), ro: it.ro}
+	}
+	m["(*reflect.MapIter).Value"] = func(p *Path, fr *frame, args []value) value {
+		it := iterOf(args[0])
+		if it.cur == nil {
+			panic(rpanic("MapIter.Value called before Next"))
+		}
+		return &rval{t: it.et, v: copyVal(it.cur.v), ro: it.ro}
+	}
+	V("MethodByName", func(p *Path, fr *frame, r *rval, a []value) value { return p.methodByName(r, cstr(a[0])) })
+	V("NumMethod", func(p *Path, fr *frame, r *rval, a []value) value {
+		if r.t == nil {
+			panic(rpanic("call of reflect.Value.NumMethod on zero Value"))
+		}
+		ms := p.eng.prog.MethodSets.MethodSet(r.t)
+		n := 0
+		for i := 0; i < ms.Len(); i++ {
+			if ms.At(i).Obj().Exported() {
+				n++
+			}
+		}
+		return BV(64, uint64(n))
+	})
+	V("Call", func(p *Path, fr *frame, r *rval, a []value) value {
+		args, _ := a[0].([]value)
+		return p.rCall(fr, r, args)
+	})
+	V("Comparable", func(p *Path, fr *frame, r *rval, a []value) value {
+		if r.t == nil {
+			return termTrue
+		}
+		if r.kind() == kInterface {
+			it := r.get().(iface)
+			return Bool(it.t == nil || types.Comparable(it.t))
+		}
+		return Bool(types.Comparable(r.t))
+	})
+	V("Equal", func(p *Path, fr *frame, r *rval, a []value) value {
+		o := rv(a, 0)
+		if r.t == nil || o.t == nil {
+			return Bool(r.t == nil && o.t == nil)
+		}
+		if !types.Identical(r.t, o.t) {
+			return termFalse
+		}
+		return equalsTerm(r.get(), o.get())
+	})
+}
+
+var rtypeMethods map[string]func(p *Path, fr *frame, t types.Type, args []value) value
+
+func init() {
+	rtypeMethods = map[string]func(p *Path, fr *frame, t types.Type, args []value) value{
+		"Kind": func(p *Path, fr *frame, t types.Type, a []value) value { return BV(64, uint64(typeKind(t))) },
+		"Name": func(p *Path, fr *frame, t types.Type, a []value) value {
+			switch n := types.Unalias(t).(type) {
+			case *types.Named:
+				name := n.Obj().Name()
+				if ta := n.TypeArgs(); ta != nil && ta.Len() > 0 {
+					var parts []string
+					for i := 0; i < ta.Len(); i++ {
+						parts = append(parts, types.TypeString(ta.At(i), nil))
+					}
+					name += "[" + strings.Join(parts, ",") + "]"
+				}
+				return name
+			case *types.Basic:
+				return n.Name()
+			}
+			return ""
+		},
+		"String": func(p *Path, fr *frame, t types.Type, a []value) value { return typeString(t) },
+		"PkgPath": func(p *Path, fr *frame, t types.Type, a []value) value {
+			if n, ok := types.Unalias(t).(*types.Named); ok && n.Obj().Pkg() != nil {
+				return n.Obj().Pkg().Path()
+			}
+			return ""
+		},
+		"Elem": func(p *Path, fr *frame, t types.Type, a []value) value {
+			switch u := t.Underlying().(type) {
+			case *types.Pointer:
+				return p.eng.rtypeIface(u.Elem())
+			case *types.Slice:
+				return p.eng.rtypeIface(u.Elem())
+			case *types.Array:
+				return p.eng.rtypeIface(u.Elem())
+			case *types.Map:
+				return p.eng.rtypeIface(u.Elem())
+			case *types.Chan:
+				return p.eng.rtypeIface(u.Elem())
+			}
+			panic(rpanic("Elem of invalid type %s", typeString(t)))
+		},
+		"Key": func(p *Path, fr *frame, t types.Type, a []value) value {
+			if u, ok := t.Underlying().(*types.Map); ok {
+				return p.eng.rtypeIface(u.Key())
+			}
+			panic(rpanic("Key of non-map type %s", typeString(t)))
+		},
+		"Len": func(p *Path, fr *frame, t types.Type, a []value) value {
+			if u, ok := t.Underlying().(*types.Array); ok {
+				return BV(64, uint64(u.Len()))
+			}
+			panic(rpanic("Len of non-array type %s", typeString(t)))
+		},
+		"NumField": func(p *Path, fr *frame, t types.Type, a []value) value {
+			if u, ok := t.Underlying().(*types.Struct); ok {
+				return BV(64, uint64(u.NumFields()))
+			}
+			panic(rpanic("NumField of non-struct type %s", typeString(t)))
+		},
+		"Field": func(p *Path, fr *frame, t types.Type, a []value) value {
+			u, ok := t.Underlying().(*types.Struct)
+			if !ok {
+				panic(rpanic("Field of non-struct type %s", typeString(t)))
+			}
+			i := int(mustInt(a[0], "Type.Field index"))
+			if i < 0 || i >= u.NumFields() {
+				panic(rpanic("Field index out of bounds"))
+			}
+			return p.eng.structFieldValue(u, i, []int{i})
+		},
+		"FieldByName": func(p *Path, fr *frame, t types.Type, a []value) value {
+			u, ok := t.Underlying().(*types.Struct)
+			if !ok {
+				panic(rpanic("FieldByName of non-struct type %s", typeString(t)))
+			}
+			idx, _, found := p.fieldByName(t, cstr(a[0]))
+			if !found {
+				sfT := p.eng.pkgs["reflect"].Type("StructField").Type()
+				return tuple{zero(sfT), termFalse}
+			}
+			cur := u
+			for _, i := range idx[:len(idx)-1] {
+				ft := cur.Field(i).Type()
+				if pt, ok := ft.Underlying().(*types.Pointer); ok {
+					ft = pt.Elem()
+				}
+				cur = ft.Underlying().(*types.Struct)
+			}
+			return tuple{p.eng.structFieldValue(cur, idx[len(idx)-1], idx), termTrue}
+		},
+		"Implements": func(p *Path, fr *frame, t types.Type, a []value) value {
+			u := typeOfArg(a[0])
+			it, ok := u.Underlying().(*types.Interface)
+			if !ok {
+				panic(rpanic("non-interface type passed to Type.Implements"))
+			}
+			return Bool(types.Implements(t, it))
+		},
+		"AssignableTo": func(p *Path, fr *frame, t types.Type, a []value) value {
+			return Bool(types.AssignableTo(t, typeOfArg(a[0])))
+		},
+		"ConvertibleTo": func(p *Path, fr *frame, t types.Type, a []value) value {
+			return Bool(types.ConvertibleTo(t, typeOfArg(a[0])))
+		},
+		"Comparable": func(p *Path, fr *frame, t types.Type, a []value) value { return Bool(types.Comparable(t)) },
+		"Bits": func(p *Path, fr *frame, t types.Type, a []value) value {
+			if b, ok := t.Underlying().(*types.Basic); ok {
+				if s, ok := basicSort(b); ok && s.K != SBool {
+					return BV(64, uint64(s.W))
+				}
+			}
+			panic(rpanic("Bits of non-arithmetic Type %s", typeString(t)))
+		},
+		"Size": func(p *Path, fr *frame, t types.Type, a []value) value {
+			return BV(64, uint64(types.SizesFor("gc", "amd64").Sizeof(t)))
+		},
+		"NumMethod": func(p *Path, fr *frame, t types.Type, a []value) value {
+			if it, ok := t.Underlying().(*types.Interface); ok {
+				return BV(64, uint64(it.NumMethods()))
+			}
+			ms := p.eng.prog.MethodSets.MethodSet(t)
+			n := 0
+			for i := 0; i < ms.Len(); i++ {
+				if ms.At(i).Obj().Exported() {
+					n++
+				}
+			}
+			return BV(64, uint64(n))
+		},
+		"MethodByName": func(p *Path, fr *frame, t types.Type, a []value) value {
+			name := cstr(a[0])
+			mT := p.eng.pkgs["reflect"].Type("Method").Type()
+			ms := p.eng.prog.MethodSets.MethodSet(t)
+			idx := 0
+			for i := 0; i < ms.Len(); i++ {
+				sel := ms.At(i)
+				if !sel.Obj().Exported() {
+					continue
+				}
+				if sel.Obj().Name() == name {
+					fn := p.eng.prog.MethodValue(sel)
+					sig := sel.Type().(*types.Signature)
+					// Method.Type has the receiver as first parameter
+					params := []*types.Var{types.NewVar(0, nil, "", t)}
+					for j := 0; j < sig.Params().Len(); j++ {
+						params = append(params, sig.Params().At(j))
+					}
+					full := types.NewSignatureType(nil, nil, nil, types.NewTuple(params...), sig.Results(), sig.Variadic())
+					var fv value = (*ssa.Function)(nil)
+					if fn != nil {
+						fv = fn
+					}
+					return tuple{structure{name, "", p.eng.rtypeIface(full), &rval{t: full, v: fv}, BV(64, uint64(idx))}, termTrue}
+				}
+				idx++
+			}
+			return tuple{zero(mT), termFalse}
+		},
+		"NumIn": func(p *Path, fr *frame, t types.Type, a []value) value {
+			return BV(64, uint64(t.Underlying().(*types.Signature).Params().Len()))
+		},
+		"In": func(p *Path, fr *frame, t types.Type, a []value) value {
+			return p.eng.rtypeIface(t.Underlying().(*types.Signature).Params().At(int(mustInt(a[0], "In"))).Type())
+		},
+		"NumOut": func(p *Path, fr *frame, t types.Type, a []value) value {
+			return BV(64, uint64(t.Underlying().(*types.Signature).Results().Len()))
+		},
+		"Out": func(p *Path, fr *frame, t types.Type, a []value) value {
+			return p.eng.rtypeIface(t.Underlying().(*types.Signature).Results().At(int(mustInt(a[0], "Out"))).Type())
+		},
+		"IsVariadic": func(p *Path, fr *frame, t types.Type, a []value) value {
+			return Bool(t.Underlying().(*types.Signature).Variadic())
+		},
+	}
+}
+
+func (e *Engine) nativeMethod(t types.Type, meth *types.Func) *nativeFunc {
+	pt, ok := t.(*types.Pointer)
+	if !ok || !isNamed(pt.Elem(), "reflect", "rtype") {
+		return nil
+	}
+	name := meth.Name()
+	f := rtypeMethods[name]
+	if f == nil {
+		return &nativeFunc{name: name, fn: func(p *Path, fr *frame, args []value) value {
+			panic(unsupported{"reflect.Type." + name})
+		}}
+	}
+	return &nativeFunc{name: "reflect.Type." + name, fn: func(p *Path, fr *frame, args []value) value {
+		p.eng.noteStub("reflect.Type." + name)
+		rt, ok := args[0].(rtype)
+		if !ok {
+			panic(unsupported{fmt.Sprintf("reflect.Type receiver %T", args[0])})
+		}
+		return f(p, fr, rt.t, args[1:])
+	}}
+}
